@@ -187,3 +187,37 @@ Theorem C15_reset_order_sensitive :
   treset_update_early (O:=ROps) set2 upd2 [] cv l <> l0.
 Proof. exact reset_order_sensitive. Qed.
 Print Assumptions C15_reset_order_sensitive.
+
+Theorem C15_recorded_value_is_applied_value :
+  forall (O : Ops),
+  forall (L X : Type) (vget : L -> X -> T O) (vset : L -> X -> T O -> L) 
+         (upd : L -> L) (ev : L -> list (T O)) (G D : Type) (draw : G -> D -> option (T O * G))
+         (pv cv : list (var X)) (which : list nat) (tr : list (list (T O))) 
+         (s s' : st L G D) (rw : row),
+       trial vget vset upd ev draw pv cv which tr s = Some (s', rw) ->
+       r_which rw = which /\
+       lens s' =
+       compensate vset upd cv tr
+         (set_which vset pv which (r_pert rw) (treset vset upd pv cv (lens s))) /\
+       r_ops rw = ev (lens s').
+Proof. intro O. exact (recorded_value_is_applied_value (O:=O)). Qed.
+Print Assumptions C15_recorded_value_is_applied_value.
+
+Theorem C15_run_records_applied_values :
+  forall (O : Ops),
+  forall (L X : Type) (vget : L -> X -> T O) (vset : L -> X -> T O -> L) 
+         (upd : L -> L) (ev : L -> list (T O)) (G D : Type) (draw : G -> D -> option (T O * G))
+         (pv cv : list (var X)) (plan : list (list nat * list (list (T O)))) 
+         (s s' : st L G D) (rows : list row),
+       run vget vset upd ev draw pv cv plan s = Some (s', rows) ->
+       Forall2
+         (fun (rw : row) (p : list nat * list (list (T O))) =>
+          r_which rw = fst p /\
+          (exists l : L,
+             r_ops rw =
+             ev
+               (compensate vset upd cv (snd p)
+                  (set_which vset pv (fst p) (r_pert rw) (treset vset upd pv cv l))))) rows plan.
+Proof. intro O. exact (run_records_applied_values (O:=O)). Qed.
+Print Assumptions C15_run_records_applied_values.
+
